@@ -1013,6 +1013,15 @@ fn issuer_case(r: &mut Rng) -> (String, IssueArgs, bool) {
             m.insert("n".into(), deep_value(r, d - 1));
             Value::Object(m)
         }),
+        5 if r.chance(1, 3) => ("a reserved name below 30 to 64 levels of containers", {
+            risky = true;
+            let d = *r.pick(&[30usize, 36, 40, 48, 56, 60, 63]);
+            let mut v = json!({"leaf": 1, (*r.pick(&["_sd", "..."])): ["x"]});
+            for k in 0..d - 2 {
+                v = if k % 3 == 1 { json!([v]) } else { json!({"n": v}) };
+            }
+            json!({"iss": "https://issuer.example", "exp": FAR_FUTURE, "deep": v})
+        }),
         5 => ("reserved names", {
             let mut c = gen_claims(r, &cfg, now);
             let name = *r.pick(&["_sd", "...", "_sd_alg", "cnf", "_sd_alg"]);
